@@ -15,6 +15,12 @@ RULE = ('track lists: exhaustively all lists of <= 3 tracks of <= 3 events over 
 def make_msg(k):
     """A distinct real message object for identity k >= 1 (three families)."""
     import mido
+    if k >= 400000:
+        return mido.MetaMessage('set_tempo', tempo=100000 + (k - 400000) % 900000)
+    if k >= 300000:
+        # note family: the same channel and note everywhere, identity in the velocity (1..127) and the on/off kind
+        v = (k - 300000) % 128
+        return mido.Message('note_off' if (k - 300000) // 128 % 2 else 'note_on', channel=0, note=60, velocity=v)
     fam = k % 3
     if fam == 0:
         return mido.Message('control_change', channel=k % 16, control=(k // 16) % 128, value=(k // 2048) % 128)
@@ -24,6 +30,10 @@ def make_msg(k):
 
 
 def ident(m):
+    if m.type == 'set_tempo':
+        return 400000 + m.tempo - 100000
+    if m.type in ('note_on', 'note_off') and m.note == 60 and m.channel == 0:
+        return 300000 + m.velocity + (128 if m.type == 'note_off' else 0)
     if m.type == 'control_change':
         return m.channel + 16 * m.control + 2048 * m.value
     if m.type == 'text':
@@ -173,6 +183,20 @@ def gen(ck):
                 tr.append((k, 1, rng.choice([0, 0, 3, 1000])))
             trs.append(tr)
         cases.append((trs, rng.choice(['plain', 'skip', 'file'])))
+    # note_on / note_off of ONE note on ONE channel spread over several tracks (retriggers, releases on the same tick)
+    for _ in range(1500 if not thorough else 30000):
+        trs = []
+        v = 0
+        for _t in range(rng.choice([2, 2, 3])):
+            tr = []
+            for _e in range(rng.randint(1, 5)):
+                v += 1
+                tr.append((300000 + (v % 127) + 1 + (128 if rng.random() < 0.5 else 0), 0, rng.choice([0, 0, 5, 10])))
+            trs.append(tr)
+        cases.append((trs, rng.choice(['plain', 'skip', 'file'])))
+    # very many tracks (the merge must not depend on the depth of the call stack)
+    for ntr in ([1200] if not thorough else [500, 1200, 3000]):
+        cases.append(([[(i + 1, 0, i % 7)] for i in range(ntr)], 'plain'))
     # the same message object at several positions: repeated patterns (`track * 3`), one object shared between tracks
     for _ in range(1500 if not thorough else 30000):
         trs = []
